@@ -331,4 +331,62 @@ theorem mirror_appPred (su : Setup) : AppPred su Mirror where
 theorem mirror_init : Mirror [] [] :=
   ⟨⟨List.nodup_nil, by simp [shape], by simp [shape]⟩, by intro c e; simp [memS, shape, World.has, World.comps]⟩
 
+/-- looking a context up succeeds exactly for the holders recorded in the registry's shape -/
+theorem get_iff_memS (reg : Registry) (hwf : ShapeWF (shape reg)) (c e : Nat) :
+    (reg.get c e).isSome ↔ memS (shape reg) c e := by
+  unfold Registry.get
+  constructor
+  · intro h
+    cases hi : reg.index c with
+    | none => simp [hi] at h
+    | some gi =>
+      obtain ⟨g, hg, hgid⟩ := index_spec reg c gi hi
+      simp only [hi, hg] at h
+      refine ⟨(g.ty, g.entities), ?_, hgid, ?_⟩
+      · simp only [shape, List.mem_map]; exact ⟨g, List.mem_of_getElem? hg, rfl⟩
+      · cases g with
+        | exclusive ty is =>
+          simp only [Option.isSome_map] at h
+          obtain ⟨p, hp⟩ := Option.isSome_iff_exists.mp h
+          have hm := List.mem_of_find?_eq_some hp
+          have hpe := List.find?_some hp
+          simp only [beq_iff_eq] at hpe
+          simp only [Group.entities, List.mem_map]
+          exact ⟨p, hm, hpe⟩
+        | shared ty es ctx =>
+          simp only at h
+          split at h
+          · rename_i hc; simpa [Group.entities] using hc
+          · simp at h
+  · rintro ⟨p, hp, hpid, hpe⟩
+    simp only [shape, List.mem_map] at hp
+    obtain ⟨g, hg, rfl⟩ := hp
+    -- the group found by `index` is this one (one group per type)
+    have hex : ∃ x ∈ reg, (fun g : Group => g.ty.id == c) x = true := ⟨g, hg, by simpa using hpid⟩
+    have hlt := List.findIdx_lt_length_of_exists hex
+    have hidx : reg.index c = some (reg.findIdx (fun g => g.ty.id == c)) := by
+      simp [Registry.index, hlt]
+    obtain ⟨g', hg', hgid'⟩ := index_spec reg c _ hidx
+    obtain ⟨j, hj⟩ := List.getElem?_of_mem hg
+    have hsame : reg.findIdx (fun g => g.ty.id == c) = j := by
+      apply idx_unique (shape reg) hwf.types _ _ (g'.ty, g'.entities) (g.ty, g.entities)
+      · simp [shape, hg']
+      · simp [shape, hj]
+      · simp only; rw [hgid', hpid]
+    rw [hsame] at hg'
+    rw [hj] at hg'
+    cases hg'
+    simp only [hidx, hsame, hj]
+    cases g with
+    | exclusive ty is =>
+      simp only [Group.entities, List.mem_map] at hpe
+      obtain ⟨q, hq, hqe⟩ := hpe
+      simp only [Option.isSome_map]
+      rw [List.find?_isSome]
+      exact ⟨q, hq, by simpa using hqe⟩
+    | shared ty es ctx =>
+      have hmem : e ∈ es := by simpa [Group.entities] using hpe
+      simp [hmem]
+
+
 end BEI
